@@ -5,6 +5,7 @@ use serde_json::{json, Value as J};
 use std::io::{BufRead, Write};
 
 mod script;
+mod stmt;
 
 fn cps(s: &str) -> J {
     J::Array(s.chars().map(|c| json!(c as u32)).collect())
